@@ -494,11 +494,36 @@ def builtin_sum(E, node, st, fr):
         st.assume(QForAll([y], z3.Select(arr, y) == z3.substitute(z, (x, y)), patterns=[z3.Select(arr, y)]))
         return V(elt.t, seq_ops(et).Sum(z.sort())(seq, arr))
     v = E.ev(A[0], st, fr)
-    if len(A) == 2:
-        raise CheckerError("sum(x, start) not modelled")
     s, et = E.as_seq(v, st)
+    so0 = seq_ops(et)
+    # a sequence whose length the path condition fixes to a small constant is summed term by term
+    known = None
+    for k in range(0, 5):
+        if E.quick_infeasible(st, so0.Len(s) != k):
+            known = k
+            break
+    if len(A) == 2:
+        # sum(list_of_lists, []) : concatenation, only for a sequence of known short length
+        if et.kind != "list" or known is None:
+            raise CheckerError("sum(x, start) is modelled only for a short sequence of lists (concatenation)")
+        it = et.args[0]
+        so1 = seq_ops(it)
+        if isinstance(A[1], ast.List) and not A[1].elts:
+            acc = so1.Empty
+        else:
+            acc, _t = E.as_seq(E.ev(A[1], st, fr), st)
+        for j in range(known):
+            lj = V(et, so0.At(s, z3.IntVal(j)))
+            E.raise_edge(fr, st, lj.z == ty.null, "TypeError", f"L{node.lineno}")
+            acc = so1.Cat(acc, E.list_seq(st, lj))
+        return V(ty.SeqV(it), acc) if fr.spec else E.new_list(st, it, acc)
     if et.kind not in ("int", "real"):
         raise CheckerError("sum of non-numeric list")
+    if known is not None:
+        total = z3.IntVal(0) if et.kind == "int" else z3.RealVal(0)
+        for j in range(known):
+            total = total + so0.At(s, z3.IntVal(j))
+        return V(et, total)
     ident = z3.Const(f"ident_{et.kind}", z3.ArraySort(ty.zsort(et), ty.zsort(et)))
     y = z3.Const("iy", ty.zsort(et))
     ax = QForAll([y], z3.Select(ident, y) == y, patterns=[z3.Select(ident, y)])
